@@ -237,7 +237,13 @@ fn check_cli(c: &Case, ctx: &Ctx) -> Outcome {
     let (_d, t) = model_table(&samples, k, rc);
     let dir = ctx.case_dir();
     let r: Result<(), Outcome> = (|| {
-        must_ok(&build(ctx, &dir, "x", &samples, k, rc, 1), "ska build")?;
+        // every third case saves under a prefix that contains a dot of its own
+        if k % 3 == 0 {
+            must_ok(&build(ctx, &dir, "x.v2", &samples, k, rc, 1), "ska build -o x.v2")?;
+            std::fs::rename(dir.join("x.v2.skf"), dir.join("x.skf")).map_err(|e| Outcome::Fail(format!("ska build -o x.v2 did not write x.v2.skf: {e}")))?;
+        } else {
+            must_ok(&build(ctx, &dir, "x", &samples, k, rc, 1), "ska build")?;
+        }
         let got = nk(ctx, &dir, "x.skf")?;
         model::compare_nk(&got, &t, k, rc, Some(k_bits_for(k))).map_err(|m| Outcome::Fail(format!("nk of the saved file: {m}")))?;
         // an ordinary second file with the same k (never fits 64 bits for k>=35: starts with G)
